@@ -179,7 +179,7 @@ def experiment(draw, max_inst=3, max_beads=2, max_samples=4, min_samples=1, with
         mefch = draw(st.lists(st.sampled_from(chans), min_size=1, max_size=min(2, len(chans)), unique=True))
         mef = {}
         for c in mefch:
-            vals = [str(v) for v in LADDER]
+            vals = [str(v * (k + 1)) for v in LADDER]          # every bead row has its own manufacturer values
             if draw(st.sampled_from([False, False, True])):
                 vals[draw(st.integers(1, 6))] = 'None'
             mef[c] = ', '.join(vals)
@@ -193,9 +193,14 @@ def experiment(draw, max_inst=3, max_beads=2, max_samples=4, min_samples=1, with
         inst = draw(st.sampled_from(with_beads + with_beads + insts))
         dt = draw(st.sampled_from(['I', 'I', 'F'])) if with_float else 'I'
         fname = 'cells%d.fcs' % (k + 1)
-        files[fname] = dict(kind='cells', instrument=inst['id'], seed=draw(st.integers(0, 2 ** 16)),
-                            n=draw(st.sampled_from([450, 600, 750, 900])), datatype=dt,
-                            res=draw(st.sampled_from([1024, 1024, 256, 4096])) if dt == 'I' else 1024)
+        earlier = [s_['file'] for s_ in samples if s_['instrument'] == inst['id']]
+        if earlier and draw(st.sampled_from([False, False, True])):
+            fname = draw(st.sampled_from(earlier))           # the same file analysed again (other beads / units / gate)
+            dt = files[fname]['datatype']
+        else:
+            files[fname] = dict(kind='cells', instrument=inst['id'], seed=draw(st.integers(0, 2 ** 16)),
+                                n=draw(st.sampled_from([450, 600, 750, 900])), datatype=dt,
+                                res=draw(st.sampled_from([1024, 1024, 256, 4096])) if dt == 'I' else 1024)
         mybeads = [b for b in beads if b['instrument'] == inst['id']]
         b = draw(st.sampled_from(mybeads)) if mybeads else None
         units = {}
